@@ -211,63 +211,103 @@ func (w *w1World) payloadLocked(inst *w1Inst, args *tlstatshouse.SendSourceBucke
 		if item.IsSetT() {
 			ts = item.T
 		}
-		if len(item.Top) != 0 {
-			p.decodeErr = "workload item with string top"
-			return p
+		// one contribution per value of the row: the tail, and one per string-top element, whose key carries
+		// the element's top tag at the string-top index. A top element may carry an int tag and a string at
+		// once; data_model.TagUnion.Normalize is the rule: the int wins, the string is dropped.
+		put := func(key string, c *w1Contribution) bool {
+			if p.items[key] != nil {
+				p.decodeErr = "key twice in one agent bucket: " + key
+				return false
+			}
+			p.items[key] = c
+			return true
 		}
-		key := w1KeyString(ts, item.Metric, item.Keys, item.Skeys)
-		v := &item.Tail
-		fm := item.FieldsMask
-		c := &w1Contribution{}
-		c.count = v.Counter
-		if v.IsSetCounterEq1(fm) {
-			c.count = 1
+		for ti := range item.Top {
+			el := &item.Top[ti]
+			c, rejected := w1DecodeValue(&el.Value, el.FieldsMask, sender)
+			if rejected || c.count == 0 {
+				// the aggregator stops merging the row at a rejected top element (later elements and the tail are
+				// not merged): nothing in this world sends that, and the oracle does not define it
+				p.decodeErr = "top element with rejected or zero counter"
+				return p
+			}
+			tags := make([]int32, format.MaxTags)
+			stags := make([][]byte, format.MaxTags)
+			copy(tags, item.Keys)
+			copy(stags, item.Skeys)
+			if el.Tag != 0 {
+				tags[format.StringTopTagIndexV3] = el.Tag
+			} else {
+				stags[format.StringTopTagIndexV3] = el.Stag
+			}
+			if !put(w1KeyString(ts, item.Metric, tags, stags), c) {
+				return p
+			}
 		}
-		if w1CounterRejected(c.count) {
+		c, rejected := w1DecodeValue(&item.Tail, item.FieldsMask, sender)
+		if rejected {
 			// a row the aggregator's validation rejects (only the raw senders produce them) contributes nothing
+			if len(item.Top) != 0 {
+				p.decodeErr = "rejected tail counter in a row with top elements"
+				return p
+			}
 			if p.firstRejected < 0 {
 				p.firstRejected = i
 			}
 			continue
 		}
-		c.maxHost = w1HostRep(0, sender)
-		if v.IsSetMaxHostTag(fm) || v.IsSetMaxHostStag(fm) {
-			c.maxHost = w1HostRep(v.MaxHostTag, string(v.MaxHostStag))
+		if c.count == 0 && len(item.Top) != 0 {
+			continue // "tail can have 0 count, while top has some": the tail adds nothing
 		}
-		c.minHost, c.cntHost = c.maxHost, c.maxHost
-		if v.IsSetMinHostTag(fm) || v.IsSetMinHostStag(fm) {
-			c.minHost = w1HostRep(v.MinHostTag, string(v.MinHostStag))
-		}
-		if v.IsSetMaxCounterHostTag(fm) || v.IsSetMaxCounterHostStag(fm) {
-			c.cntHost = w1HostRep(v.MaxCounterHostTag, string(v.MaxCounterHostStag))
-		}
-		if v.IsSetValueSet(fm) {
-			c.valueSet = true
-			c.min = v.ValueMin
-			if v.IsSetValueMax(fm) {
-				c.max, c.sum, c.sumsq = v.ValueMax, v.ValueSum, v.ValueSumSquare
-			} else { // "simple value (all values identical)"
-				c.max, c.sum, c.sumsq = v.ValueMin, v.ValueMin*c.count, v.ValueMin*v.ValueMin*c.count
-			}
-		}
-		c.hasUniq = len(v.Uniques) != 0
-		for _, ce := range v.Centroids {
-			c.centroidCount += float64(ce.Count)
-		}
-		if v.IsSetImplicitCentroid(fm) { // "centroid should be restored from the single simple value"
-			c.centroidCount += c.count
-		}
-		if p.items[key] != nil {
-			p.decodeErr = "key twice in one agent bucket: " + key
+		if !put(w1KeyString(ts, item.Metric, item.Keys, item.Skeys), c) {
 			return p
 		}
-		p.items[key] = c
 		if item.Metric == w1MetricMarker {
 			p.hasMarker = true
 			p.markerIdx = i
 		}
 	}
 	return p
+}
+
+// w1DecodeValue reads one value (a row's tail or a string-top element) as the TL schema states it.
+func w1DecodeValue(v *tlstatshouse.MultiValueBytes, fm uint32, sender string) (c *w1Contribution, rejected bool) {
+	c = &w1Contribution{}
+	c.count = v.Counter
+	if v.IsSetCounterEq1(fm) {
+		c.count = 1
+	}
+	if w1CounterRejected(c.count) {
+		return c, true
+	}
+	c.maxHost = w1HostRep(0, sender)
+	if v.IsSetMaxHostTag(fm) || v.IsSetMaxHostStag(fm) {
+		c.maxHost = w1HostRep(v.MaxHostTag, string(v.MaxHostStag))
+	}
+	c.minHost, c.cntHost = c.maxHost, c.maxHost
+	if v.IsSetMinHostTag(fm) || v.IsSetMinHostStag(fm) {
+		c.minHost = w1HostRep(v.MinHostTag, string(v.MinHostStag))
+	}
+	if v.IsSetMaxCounterHostTag(fm) || v.IsSetMaxCounterHostStag(fm) {
+		c.cntHost = w1HostRep(v.MaxCounterHostTag, string(v.MaxCounterHostStag))
+	}
+	if v.IsSetValueSet(fm) {
+		c.valueSet = true
+		c.min = v.ValueMin
+		if v.IsSetValueMax(fm) {
+			c.max, c.sum, c.sumsq = v.ValueMax, v.ValueSum, v.ValueSumSquare
+		} else { // "simple value (all values identical)"
+			c.max, c.sum, c.sumsq = v.ValueMin, v.ValueMin*c.count, v.ValueMin*v.ValueMin*c.count
+		}
+	}
+	c.hasUniq = len(v.Uniques) != 0
+	for _, ce := range v.Centroids {
+		c.centroidCount += float64(ce.Count)
+	}
+	if v.IsSetImplicitCentroid(fm) { // "centroid should be restored from the single simple value"
+		c.centroidCount += c.count
+	}
+	return c, false
 }
 
 // ---- per-record processing --------------------------------------------------------------------------
@@ -423,6 +463,9 @@ func (o *w1Oracle) process(w *w1World, rec *w1Rec) (fails []w1Fail) {
 			o.filed[rg][at][fmt.Sprintf("%s:%d", rec.where, rec.bucketTime)] = true
 		}
 		switch rec.where {
+		case "shutdown_hijack":
+			// the aggregator is shutting down (inserts disabled): it keeps the request without filing or answering it
+			w.r.Probes["request_held_unanswered_by_aggregator_in_shutdown"]++
 		case "answered":
 			w.r.Probes["c10_answered_before_read"]++
 		case "recent":
@@ -573,6 +616,10 @@ func (o *w1Oracle) checkBody(w *w1World, rec *w1Rec) (fails []w1Fail) {
 	b := rec.body
 	if b.parseErr != "" {
 		fail("undecodable_body", "parse", "the API-side column readers cannot decode the body (%d bytes): %s", rec.bodyLen, b.parseErr)
+		return
+	}
+	if b.uniqChanged != "" {
+		fail("unique", "state_changed_by_later_block", "row %s: the uniq state the API-side column reader handed out for this row (copied by value, as the API's result callbacks keep it) changed when later rows were decoded with the same column object (Reset + DecodeColumn per block)", b.uniqChanged)
 		return
 	}
 	if len(b.sampled) != 0 {
@@ -855,7 +902,7 @@ func (o *w1Oracle) checkForgotten(w *w1World, inst *w1Inst, held map[uint32]stri
 			w.r.Extra["c01_seconds_still_held_at_check"]++
 		case o.crashLost[at]:
 			w.r.Probes["second_lost_with_crashed_agent"]++
-		case w.cfg.faulty && at.T+window < nowUnix:
+		case w.mayAgeOut() && at.T+window < nowUnix:
 			w.r.Probes["second_dropped_outside_window"]++
 		default:
 			fails = append(fails, w1Fail{"C01", "forgotten_without_ack", when, fmt.Sprintf("%s: agent%d no longer holds second %d (not on disk, not queued, not in flight) although no aggregator response with discard=true ever reached it; window %d s, now %d", when, at.a, at.T, window, nowUnix)})
@@ -944,7 +991,7 @@ func (o *w1Oracle) agentStoppedGracefully(w *w1World, inst *w1Inst, image string
 		if o.wire[at] != nil || o.crashLost[at] {
 			continue // crossed the wire: checkForgotten below
 		}
-		if w.cfg.faulty && at.T+uint32(w.cfg.window) < nowUnix {
+		if w.mayAgeOut() && at.T+uint32(w.cfg.window) < nowUnix {
 			w.r.Probes["second_dropped_outside_window"]++
 			continue
 		}
@@ -964,6 +1011,12 @@ func (o *w1Oracle) agentStoppedGracefully(w *w1World, inst *w1Inst, image string
 	o.checkForgotten(w, inst, held, "agent_graceful_stop")
 }
 
+// mayAgeOut: seconds can legitimately leave the historic window before they are inserted. In a run
+// without faults nothing delays a second for long, so nothing may age out; faults can, and so can a
+// graceful aggregator stop (up to 30 s of waiting for inserts plus 10 s for its connections, during which
+// the requests it holds are not answered, then a restart with empty memory).
+func (w *w1World) mayAgeOut() bool { return w.cfg.faulty || w.aggStops > 0 }
+
 func (o *w1Oracle) excused(w *w1World, at w1AT, nowUnix uint32) bool {
 	if o.crashLost[at] {
 		return true
@@ -975,7 +1028,7 @@ func (o *w1Oracle) excused(w *w1World, at w1AT, nowUnix uint32) bool {
 	if o.corruptAcked[at] {
 		return true
 	}
-	return w.cfg.faulty && at.T+uint32(w.cfg.window) < nowUnix
+	return w.mayAgeOut() && at.T+uint32(w.cfg.window) < nowUnix
 }
 
 // allStored: nothing more can be gained by draining further.
@@ -986,7 +1039,7 @@ func (o *w1Oracle) allStored(w *w1World) bool {
 			return false
 		}
 	}
-	if !w.cfg.faulty {
+	if !w.mayAgeOut() {
 		for _, n := range o.slow {
 			if n == 0 {
 				return false
@@ -1076,7 +1129,7 @@ func (o *w1Oracle) final(w *w1World) {
 		return slow[i].a < slow[j].a
 	})
 	for i, k := range slow {
-		if w.cfg.faulty {
+		if w.mayAgeOut() {
 			w.r.Probes["low_resolution_row_never_stored_in_faulty_run"]++
 			continue
 		}
